@@ -52,6 +52,10 @@ def fast_wallet():
     return PaperWallet.from_extended_key(_XPRV[0])
 
 
+def _deep_forget():
+    del _DEEP[:]
+
+
 def ref_node(path):
     return hd.derive(master_ref(), path)
 
@@ -457,28 +461,38 @@ def watched(gran):
 def exec_schedule_case(case):
     """worker: explore the subtree below case['prefix']"""
     name, gran, bound = case["harness"], case["gran"], case["bound"]
-    st = sched.explore(harness(name), watched(gran), bound, make_check(name), prefix=case["prefix"], instr=(gran == "instr"))
+    st = sched.explore(harness(name), watched(gran), bound, make_check(name), prefix=case["prefix"], instr=(gran == "instr"),
+                       fork_each=case.get("fork", True))
     viols = st["violations"]
     for v in viols:
         v["case"] = {"k": "schedule", "harness": name, "gran": gran, "schedule": v.pop("schedule")}
     return R({"schedule-ok": st["executions"] - len(viols), "violation": len(viols)} if viols else {"schedule-ok": st["executions"]},
-             viols=viols[:5], n=st["executions"], extra={"harness": name, "gran": gran, "outcomes": list(st["outcomes"])[:4], "points": st["points_max"]})
+             viols=viols[:5], n=st["executions"], extra={"harness": name, "gran": gran, "bound": bound, "n": st["executions"],
+                                                         "outcomes": list(st["outcomes"])[:4], "points": st["points_max"]})
+
+
+def _one_replay(case):
+    name, gran = case["harness"], case["gran"]
+    x = sched.run_schedule(harness(name), watched(gran), case["schedule"], instr=(gran == "instr"))
+    return [p[4] for p in x.points], x.observation, make_check(name)(x)
 
 
 def replay_schedule(case):
-    name, gran = case["harness"], case["gran"]
-    x1 = sched.run_schedule(harness(name), watched(gran), case["schedule"], instr=(gran == "instr"))
-    x2 = sched.run_schedule(harness(name), watched(gran), case["schedule"], instr=(gran == "instr"))
-    if [p[4] for p in x1.points] != [p[4] for p in x2.points] or x1.observation != x2.observation:
-        raise HarnessError("schedule %r of harness %s is not deterministic" % (case["schedule"], name))
-    return make_check(name)(x1)
+    """the stored choice list is executed twice, each time in a pristine forked child; both runs must agree"""
+    a = isolated(_one_replay, case)
+    b = isolated(_one_replay, case)
+    if a[0] != b[0] or a[1] != b[1]:
+        raise HarnessError("schedule %r of harness %s is not deterministic" % (case["schedule"], case["harness"]))
+    return a[2]
 
 
 def execute(case):
     if case.get("k") == "schedule_tree":
         return exec_schedule_case(case)
+    if case.get("k") == "schedule_root":
+        return exec_schedule_root(case)
     if case.get("k") == "schedule":
-        vs = isolated(replay_schedule, case)
+        vs = replay_schedule(case)
         return R("violation" if vs else "schedule-ok", viols=vs)
     if "hist" in case:
         r = isolated(Histories(OPS, case.get("layer", "").endswith("testnet")).run, case["hist"])
@@ -492,63 +506,92 @@ def replay(case):
     return execute(case)["v"]
 
 
-def explore_harness(ctx, name, gran, bound):
-    """root executions in the parent (isolated), first-level branches fanned out to the pool"""
-    def roots():
-        """the default execution for EVERY start choice is run here; their first-level deviations are fanned out"""
-        w = watched(gran)
-        nthreads = len(harness(name)()[0])
-        vs, pref, npoints, nroots = [], [], 0, 0
-        for first in range(nthreads):
-            x = sched.run_schedule(harness(name), w, [first], instr=(gran == "instr"))
-            x2 = sched.run_schedule(harness(name), w, [first], instr=(gran == "instr"))
-            if [p[4] for p in x.points] != [p[4] for p in x2.points] or x.observation != x2.observation:
-                raise HarnessError("harness %s is not deterministic under the scheduler" % name)
-            if len(x.points) < 4:
-                raise HarnessError("harness %s produced %d scheduling points: the scheduler's seam is lost" % (name, len(x.points)))
-            vs += make_check(name)(x)
-            choices = [p[2] for p in x.points]
-            pref += [choices[:i] + [alt] for i, alt in sched.branches(x, 1, bound)]
-            npoints = max(npoints, len(x.points))
-            nroots += 1
-        return npoints, vs, pref, nroots
-    npoints, vs, prefixes, nroots = isolated(roots)
-    for v in vs:
-        v["case"] = {"k": "schedule", "harness": name, "gran": gran, "schedule": []}
-        ctx.violate("schedules:" + name, v)
-    cases = [{"k": "schedule_tree", "harness": name, "gran": gran, "bound": bound, "prefix": p} for p in prefixes]
-    layer = "schedules:%s:%s:b%d" % (name, gran, bound)
-    agg = ctx.product(layer, cases, execute, chunk=max(1, len(cases) // 256), nsamples=1)
-    execs = nroots + ctx.layers[layer]["evaluations"]
-    outcomes = set()
+def exec_schedule_root(case):
+    """the default execution of one start choice, twice, each in its own pristine child: must agree exactly"""
+    name, gran, bound, first = case["harness"], case["gran"], case["bound"], case["first"]
+
+    def root():
+        x = sched.run_schedule(harness(name), watched(gran), [first], instr=(gran == "instr"))
+        choices = [p[2] for p in x.points]
+        return ([p[4] for p in x.points], x.observation, make_check(name)(x), [choices[:i] + [alt] for i, alt in sched.branches(x, 1, bound)])
+    a = isolated(root)
+    b = isolated(root)
+    if a[0] != b[0] or a[1] != b[1]:
+        raise HarnessError("harness %s is not deterministic under the scheduler" % name)
+
+    def twice_in_one_process():
+        r1 = root()
+        r2 = root()
+        return r1[0] == r2[0] and r1[1] == r2[1]
+    # does the code under test carry state from one execution to the next inside a process (a cache)? then every schedule
+    # of this harness is executed in its own forked child; otherwise executions can share a worker process safely
+    stateful = not isolated(twice_in_one_process)
+    if len(a[0]) < 4:
+        raise HarnessError("harness %s produced %d scheduling points: the scheduler's seam is lost" % (name, len(a[0])))
+    viols = a[2]
+    for v in viols:
+        v["case"] = {"k": "schedule", "harness": name, "gran": gran, "schedule": [first]}
+    return R("root-ok" if not viols else "violation", viols=viols,
+             extra={"harness": name, "gran": gran, "bound": bound, "points": len(a[0]), "prefixes": a[3], "outcome": repr(a[1]),
+                    "stateful": stateful})
+
+
+def explore_plan(ctx, plan):
+    """all harnesses of the plan share two pool runs: (1) root executions, (2) every first-level sub-tree"""
+    roots = [{"k": "schedule_root", "harness": n, "gran": g, "bound": b, "first": f} for n, g, b in plan for f in range(len(n.split("|")))]
+    agg = ctx.product("schedule-roots", roots, execute, chunk=1, nsamples=1)
+    rep = {}
+    cases = []
     for x in agg["x"]:
-        outcomes.update(x["outcomes"])
-    return {"harness": name, "granularity": gran, "preemption_bound": bound, "schedules": execs, "points_default_schedule": npoints,
-            "distinct_outcomes": len(outcomes)}
+        key = (x["harness"], x["gran"], x["bound"])
+        r = rep.setdefault(key, {"harness": x["harness"], "granularity": x["gran"], "preemption_bound": x["bound"], "schedules": 0,
+                                 "points_default_schedule": 0, "outcomes": set()})
+        r["schedules"] += 1
+        r["points_default_schedule"] = max(r["points_default_schedule"], x["points"])
+        r["outcomes"].add(x["outcome"])
+        r["fork_each_execution"] = r.get("fork_each_execution", False) or x["stateful"]
+        cases += [{"k": "schedule_tree", "harness": x["harness"], "gran": x["gran"], "bound": x["bound"], "prefix": p, "fork": x["stateful"]}
+                  for p in x["prefixes"]]
+    # big sub-trees first (short prefixes) for load balance
+    cases.sort(key=lambda c: (len(c["prefix"]), c["harness"]))
+    agg = ctx.product("schedule-subtrees", cases, execute, chunk=max(1, min(24, len(cases) // 2000 or 1)), nsamples=2)
+    for x in agg["x"]:
+        r = rep[(x["harness"], x["gran"], x["bound"])]
+        r["schedules"] += x["n"]
+        r["outcomes"].update(x["outcomes"])
+    out = []
+    for key in sorted(rep):
+        r = rep[key]
+        r["distinct_outcomes"] = len(r.pop("outcomes"))
+        out.append(r)
+    return out
 
 
 def warm():
-    """fill the reference caches in the parent so that forked workers inherit them"""
-    fast_wallet()
+    """fill the REFERENCE caches in the parent so that forked workers inherit them. Nothing of the implementation is
+    executed here: the parent stays pristine, so every forked child starts from the package as imported."""
+    if not _XPRV:
+        _XPRV.append(hd.xprv(master_ref()))
     for o in TOPS:
         make_check(o)
-        _EXPECTED[o] = [expected_op(o)]
     for n, g, b in plan_for(True) + plan_for(False):
         make_check(n)
-    wd = World()
-    for op in OPS:
-        wd.apply(op)
-    wd.invariants()
+    for path in ([0], [1], [H], [0, 1], [H + 44, H, H], [H], [0, 0], [0, 1, H + 2], [0, 1, 2, 3, 4, H + 5, 6], [H + 84, H, H]):
+        ref_canon(path)
     for i in range(0, 8):
         ref_canon([0, i])
-        ref_addr([0, i], "p2wpkh")
+        for t in (False, True):
+            ref_addr([0, i], "p2wpkh", t)
+    for kind in KINDS:
+        for t in (False, True):
+            ref_addr([0], kind, t)
 
 
 def plan_for(thorough):
     """(harness, granularity, preemption bound). Pairs are taken systematically from the thread-operation alphabet."""
     deriv = ["ckd0", "ckd1", "bpA", "bpB", "children", "gen"]
     b85 = ["wif0", "wif1", "hex"]
-    plan = [("ckd0|ckd0", "state", 2), ("ckd0|ckd1", "state", 2)]
+    plan = [("ckd0|ckd0", "state", 2 if thorough else 1), ("ckd0|ckd1", "state", 2)]
     pairs = []
     for i, a in enumerate(deriv):
         for b in deriv[i:]:
@@ -556,7 +599,7 @@ def plan_for(thorough):
     for i, a in enumerate(b85):
         for b in b85[i:]:
             pairs.append((a, b))
-    pairs += [("xkeys", "xkeys"), ("xkeys", "ckd0"), ("xkeys", "bpA"), ("wif0", "bpA"), ("hex", "ckd0"), ("wasabi", "wasabi"), ("wasabi", "bpA"), ("wasabi", "wif0")]
+    pairs += [("xkeys", "xkeys"), ("xkeys", "ckd0"), ("wif0", "bpA"), ("wasabi", "bpA"), ("wasabi", "wif0")]
     if thorough:
         state_ops = [o for o in TOPS if o not in ("p2wpkh", "p2sh_p2wsh", "p2pkh0", "p2pkh1", "generate", "ckd2", "wifnode", "xprvnode", "parsexpub")
                      and not o.startswith("h_")]
@@ -582,7 +625,7 @@ def plan_for(thorough):
 
 
 def run(ctx):
-    isolated(lambda: None)
+    deep_baseline()          # measured first, in a child forked from the still pristine parent
     warm()
     ops = OPS if ctx.thorough else OPS[:-1]
     depth = 4 if ctx.thorough else 3
@@ -595,7 +638,7 @@ def run(ctx):
         sub = [o for o in OPS if o[0] in ("by_path", "ckd", "children", "genA", "genB", "bip85wif", "addr")][:11]
         bfs(ctx, "api-call-histories-depth4-core", Histories(sub), 4, chunk=8)
     plan = plan_for(ctx.thorough)
-    reports = [explore_harness(ctx, n, g, b) for n, g, b in plan]
+    reports = explore_plan(ctx, plan)
     total = sum(r["schedules"] for r in reports)
     return {"schedules": total, "schedule_harnesses": reports, "history_alphabet": len(ops), "history_depth": depth,
             "not_modelled": "switches inside one source line, inside C code and inside third-party ecdsa/hashlib calls; more than 3 threads"}
